@@ -11,6 +11,16 @@ let z_of_int i = if i = 0 then Z0 else if i > 0 then Zpos (pos_of_int i) else Zn
 let rec int_of_pos = function XH -> 1 | XO p -> 2 * int_of_pos p | XI p -> 2 * int_of_pos p + 1
 let int_of_n = function N0 -> 0 | Npos p -> int_of_pos p
 let int_of_z = function Z0 -> 0 | Zpos p -> int_of_pos p | Zneg p -> - (int_of_pos p)
+let dec_of_z (v : z) : string =
+  (* decimal text of a non-negative Z of any size *)
+  let ten = Zpos (XO (XI (XO XH))) in
+  let rec go v acc =
+    match v with
+    | Z0 -> if acc = "" then "0" else acc
+    | _ ->
+        let q = Z.div v ten and r = Z.modulo v ten in
+        go q (String.make 1 (Char.chr (48 + (match r with Z0 -> 0 | Zpos p -> int_of_pos p | Zneg _ -> 0))) ^ acc) in
+  match v with Zneg _ -> "-?" | _ -> go v ""
 let rec int_of_nat = function O -> 0 | S n -> 1 + int_of_nat n
 let rec nat_of_int i = if i <= 0 then O else S (nat_of_int (i - 1))
 
@@ -99,9 +109,9 @@ let dump (g : game) : string =
     (List.length g.g_moves)
 
 (* ---- session ----------------------------------------------------------------------- *)
-type session = { mutable game : game option; mutable pushed : move list; mutable table : table; mutable hist : z list }
+type session = { mutable last_best : move option; mutable game : game option; mutable pushed : move list; mutable table : table; mutable hist : z list }
 let zero_hist () = List.init 768 (fun _ -> Z0)
-let sess = { game = None; pushed = []; table = tempty; hist = zero_hist () }
+let sess = { last_best = None; game = None; pushed = []; table = tempty; hist = zero_hist () }
 let ints_of (s : string) : int list =
   List.filter_map (fun x -> if x = "" then None else Some (try int_of_string x with _ -> 0)) (String.split_on_char ' ' s)
 
@@ -215,10 +225,38 @@ let run (line : string) : unit =
           let r = driver g sess.table (if depth > 0 then Some (z_of_int depth) else None) (z_of_int stop_at) tableless in
           List.iter (fun l -> print_string (string_of_text l ^ "\n")) r.d_lines;
           sess.table <- r.d_st.s_tbl;
+          sess.last_best <- r.d_move;
           if not r.d_fuel_ok then print_string "!! out of fuel\n";
           Printf.printf "best %s polls=%d after=%d table=%d\n"
             (match r.d_move with Some m -> uci_s m | None -> "none")
             (int_of_z r.d_st.s_polls) (int_of_z r.d_st.s_after) (int_of_z (tlen r.d_st.s_tbl)))
+  | "playbest" ->
+      with_game cmd (fun g ->
+          match sess.last_best with
+          | None -> print_string "playbest none\n"
+          | Some m ->
+              let (c, g1) = get_moves_st g true in
+              if List.exists (fun x -> move_eqb x m) c then begin
+                sess.game <- Some (push_history g1 m);
+                Printf.printf "playbest %s\n" (uci_s m)
+              end else (sess.game <- Some g1; Printf.printf "playbest illegal %s\n" (uci_s m)))
+  | "budget" ->
+      (* budget <wtime|-> <btime|-> <winc|-> <binc|-> <w|b> <movetime|-> <infinite 0|1> *)
+      let toks = List.filter (fun x -> x <> "") (String.split_on_char ' ' rest) in
+      let big (s : string) : z option =
+        if s = "-" then None else
+        (* decimal string to Z without overflow *)
+        let ten = z_of_int 10 in
+        let acc = ref Z0 in
+        String.iter (fun c -> acc := Z.add (Z.mul !acc ten) (z_of_int (Char.code c - 48))) s;
+        Some !acc in
+      (match toks with
+       | [wt; bt; wi; bi; side; mt; inf] ->
+           let r = go_timer (big wt) (big bt) (big wi) (big bi) (side = "w") (big mt) (inf = "1") in
+           (match r with
+            | None -> print_string "budget none\n"
+            | Some v -> Printf.printf "budget %s\n" (dec_of_z v))
+       | _ -> print_string "budget bad\n")
   | "root" ->
       with_game cmd (fun g ->
           let a = ints_of rest in
